@@ -399,6 +399,74 @@ func vh_C30_stream() {
 	p.check()
 }
 
+// vC30Src is an io.Reader without WriteTo: it hands out its data in chunks of
+// at most chunk bytes (0 = whatever fits) and reports io.EOF either together
+// with the last bytes or on a separate call - both allowed by io.Reader.
+type vC30Src struct {
+	data    []byte
+	chunk   int
+	eofWith bool
+}
+
+func (s *vC30Src) Read(p []byte) (int, error) {
+	if len(s.data) == 0 {
+		return 0, io.EOF
+	}
+	n := len(p)
+	if s.chunk > 0 && n > s.chunk {
+		n = s.chunk
+	}
+	if n > len(s.data) {
+		n = len(s.data)
+	}
+	copy(p, s.data[:n])
+	s.data = s.data[n:]
+	if len(s.data) == 0 && s.eofWith {
+		return n, io.EOF
+	}
+	return n, nil
+}
+
+// vh_C30_readfrom: one data message streamed into the writer of NextWriter
+// through io.ReaderFrom (what io.Copy uses), optionally after a Write piece
+// and followed by another; the source delivers 1, 2 or all bytes per Read
+// and signals EOF with or after its last bytes.
+func vh_C30_readfrom() {
+	maxLen := vParam("c30_len", 6)
+	wIsServer := vChoice("writerIsServer", 2) == 1
+	wbuf := vC30Wbuf("wbuf", vParam("c30_wbufs", 3))
+	t := vC30Types[vChoice("type", 2)]
+	p := vC30NewPair(wIsServer, wbuf, 0)
+	n := vChoice("len", maxLen+1)
+	a := vChoice("split1", n+1)
+	b := a + vChoice("split2", n-a+1)
+	data := vC30Payload(t, n)
+	src := &vC30Src{data: append([]byte(nil), data[a:b]...), chunk: []int{0, 1, 2}[vChoice("srcChunk", 3)], eofWith: vChoice("eofWithData", 2) == 1}
+
+	wr, err := p.w.NextWriter(t)
+	vAssert(err == nil, "NextWriter succeeds")
+	if err != nil {
+		return
+	}
+	_, werr := wr.Write(data[:a])
+	if werr == nil {
+		rf, ok := wr.(io.ReaderFrom)
+		vAssert(ok, "message writer implements io.ReaderFrom")
+		_, werr = rf.ReadFrom(src) // the returned count is not part of the property
+	}
+	if werr == nil {
+		_, werr = wr.Write(data[b:])
+	}
+	if werr == nil {
+		werr = wr.Close()
+	}
+	p.note(t, data, werr, true)
+	vCover(b-a > 0 && src.eofWith, "eof-with-last-bytes")
+	vCover(b-a > p.wbufPayload, "source-larger-than-buffer")
+	vCover(a > 0 && b < n && b > a, "readfrom-between-writes")
+	p.check()
+}
+
 // vh_C30_apis: one message through WriteMessage, WriteControl or a
 // PreparedMessage (no compression), every type, both roles; the reader's
 // transport delivers the bytes whole or one byte at a time.
